@@ -16,6 +16,11 @@ def run(tier, seed, replay=None):
     rng = random.Random(seed * 7919 + 17)
     if replay:
         cases = [json.load(open(replay))["trace"]["input"]]
+        if "mut_index" in cases[0]:          # a call history: re-run it as such
+            trs = [r for r in run_tasks("cutstock", "run_cut_history", cases, timeout=120) if isinstance(r, dict) and "events" in r]
+            vs = ck.validate(DIR, "CutTrace", trs, "replay (history)")
+            ck.classify(trs, vs)
+            return ck.finish()
     else:
         ck.mc(DIR, "CutTwin", "MC_cut.cfg")
         ck.mc(DIR, "CutTwin", "MC_cut2.cfg")
@@ -31,6 +36,18 @@ def run(tier, seed, replay=None):
         n = 400 if tier == "quick" else 6000
         cases = [drv.gen_stock(rng) for _ in range(n)] + [drv.gen_custom(rng) for _ in range(n // 2)]
     res = run_tasks("cutstock", "run_cut", cases, timeout=120)
+    # call histories on one list object (edited in place between two solves)
+    hist = []
+    if not replay:
+        for c in cases:
+            if c.get("kind") == "stock" and not c.get("floats") and len(hist) < (120 if tier == "quick" else 1500):
+                k = rng.randrange(len(c["sizes"]))
+                others = [z for i, z in enumerate(c["sizes"]) if i != k and z < c["W"]]
+                # the new size often complements another piece to a full roll, so that patterns the first solve could not use matter
+                ms = c["W"] - rng.choice(others) if others and rng.random() < 0.6 else rng.randint(1, c["W"])
+                h = dict(c, mut_index=k, mut_size=ms, demands=[max(1, d) for d in c["demands"]])
+                hist.append(h)
+    hres = run_tasks("cutstock", "run_cut_history", hist, timeout=120) if hist else []
     trs = []
     for r, c in zip(res, cases):
         if not isinstance(r, dict) or "events" not in r:
@@ -38,6 +55,10 @@ def run(tier, seed, replay=None):
             r = {"kind": c["kind"], "W": c.get("W", 0), "sizes": c.get("sizes", []), "demands": c["demands"], "pool": [list(x) for x in c.get("pool", [])],
                  "input": c, "events": [{"e": what, "solver": "worker", "what": "WorkerCrash"}]}
         trs.append(r)
+    for r in hres:
+        if isinstance(r, dict) and "events" in r:
+            trs.append(r)
+    ck.extra["call_histories_edit_in_place"] = sum(1 for r in hres if isinstance(r, dict) and "events" in r)
     vs = ck.validate(DIR, "CutTrace", trs, "solve_cg and solve_bp on the same instance", timeout=14400)
     ck.classify(trs, vs, nontrivial=lambda t, v: sum(t["demands"]) >= 2)
     for t in trs:
